@@ -444,6 +444,31 @@ def run(ctx):
                     continue
                 ctx.check("construct-converts", got_ == want_, "construct/rows-of-two-alphabets-joined-code-by-code", "SequenceEntry.from_entry_tuples with rows in %s and %s (%s) reads %r, the rows say %r" % (enc_a, enc_b or "plain text", order, got_, want_),
                           {"encodings": [enc_a, enc_b], "order": order, "got": got_, "expected": want_}, ("mixed-rows", enc_a, enc_b, order))
+        # several new fields at once, a type map naming some of them (not the first): the columns come out in the order given, each value under its own name
+        b2 = dt.SequenceEntry(["s1", "s2"], ["ACGT", "GG"])
+        new_fields = {"n_reads": [3, 4], "tag": ["AC", "T"], "weight": [0.5, 1.5]}
+        for tmap in ({"tag": str}, {"weight": float, "tag": str}, {"weight": float}):
+            try:
+                r2 = b2.add_fields(dict(new_fields), field_type_map=dict(tmap))
+            except Exception:
+                ctx.judged("construct-raises", ("add_fields-order", tuple(tmap)))
+                continue
+            names_ = [f.name for f in dataclasses.fields(r2)]
+            rows_ = [tuple((v if not hasattr(v, "to_string") else v.to_string()) if not isinstance(v, (np.integer, np.floating)) else v.item() for v in (getattr(e, f_) for f_ in names_)) for e in r2.tolist()]
+            want_names = ["name", "sequence", "n_reads", "tag", "weight"]
+            want_rows = [("s1", "ACGT", 3, "AC", 0.5), ("s2", "GG", 4, "T", 1.5)]
+            ctx.check("construct-converts", names_ == want_names and [tuple(map(str, x)) for x in rows_] == [tuple(map(str, x)) for x in want_rows], "add_fields/fields-in-another-order-than-given",
+                      "add_fields(%r, field_type_map=%r) gives fields %r and rows %r" % (list(new_fields), {k_: v_.__name__ for k_, v_ in tmap.items()}, names_, rows_), {"fields": names_, "rows": [list(map(str, x)) for x in rows_]}, ("add_fields-order", tuple(tmap)))
+        # rows handed to from_entry_tuples as a one-shot iterable (generator, zip, map): every row is there
+        src_rows = [("a", 1, 5), ("b", 2, 6), ("c", 3, 7)]
+        for how_, mk_it in (("generator", lambda rr: (x for x in rr)), ("zip", lambda rr: zip(*[list(col) for col in zip(*rr)])), ("iter", lambda rr: iter(rr)), ("list", lambda rr: list(rr))):
+            for rr in (src_rows, src_rows[:1]):
+                try:
+                    tt = dt.Interval.from_entry_tuples(mk_it(rr))
+                    got_ = [(str(e.chromosome), int(e.start), int(e.stop)) for e in tt.tolist()]
+                except Exception as e:
+                    got_ = "raised %s" % type(e).__name__
+                ctx.check("construct-converts", got_ == [tuple(x) for x in rr], "from_entry_tuples/rows-differ:%s" % ("one-shot-iterable" if how_ != "list" else "list"), "from_entry_tuples(%s of %d rows) gives %r" % (how_, len(rr), got_), {"how": how_, "rows": [list(x) for x in rr], "got": str(got_)}, ("fet", how_, len(rr)))
         # add_fields without a type map: the new column gets one declared type, and every value of a long column is of that type (or the call refuses)
         base = dt.Interval(["c"] * 150, np.arange(150), np.arange(150) + 1)
         for odd_at, odd in ((120, 1.5), (149, "x"), (100, 2.5), (3, 1.5)):
